@@ -115,6 +115,21 @@ def run_shard(desc, ctx):
         ids = np.sort(rng.permutation(2000)[:k])
         run_case({'rand': [int(desc['seed']), sh, int(_)], 'n': n, 'ids': ids.tolist(),
                   'dtype': DTYPES[int(rng.integers(0, 4))], 'shifted': bool(rng.integers(0, 2)), 'rot': _}, ctx)
+    # blocky vectors: long runs of one id, ids recurring after other ids (24-40 runs of 20-60 spikes)
+    for j in range(3):
+        if (sh + j) % 4 == 0:
+            nruns = int(rng.integers(24, 41))
+            run_ids = rng.choice([4, 2, 1, 9], size=nruns)
+            vec = np.concatenate([np.full(int(rng.integers(20, 61)), i_) for i_ in run_ids])
+            run_case({'vec': vec.tolist(), 'dtype': DTYPES[(sh + j) % 4], 'shifted': bool(j % 2), 'rot': 7 * j + sh}, ctx)
+    # ids from a very sparse 64-bit id space (grouping functions only)
+    if sh % 4 == 1:
+        for vec in ([5, 2 ** 61, 5, 2 ** 43 + 7, 2 ** 61, 5, 2 ** 61 + 1, 5, 2 ** 43 + 7, 5, 2 ** 61, 5],
+                    [2 ** 62, 3, 2 ** 62, 3, 3, 2 ** 40]):
+            run_case({'vec': vec, 'dtype': 'int64', 'shifted': False, 'rot': sh, 'huge_ids': True}, ctx)
+    # one vector of more than 2**22 spikes (not a multiple of 2**22)
+    if sh == 9:
+        run_case({'kind': 'very_long', 'n': 2 ** 22 + 1000, 'seed': [int(desc['seed']), sh]}, ctx)
     # long vectors whose id span sits on a dtype boundary (255..257, 65535..65537)
     for j, span in enumerate([65536, 65535, 65537, 256, 255, 257]):
         if j != sh % 6 and tier == 'quick':
@@ -128,9 +143,27 @@ def run_shard(desc, ctx):
         run_case({'empties': True}, ctx)
 
 
+def _very_long(case, ctx):
+    from phylib.io import array as pa
+    rng = np.random.default_rng(case['seed'])
+    n = case['n']
+    for dt in ('uint16', 'int32'):
+        sc = rng.choice(np.array([3, 0, 7, 11]), size=n).astype(dt)
+        ctx.count(1, key=hkey('very_long', n, dt), nontrivial=True, cell=('very_long', dt))
+        for req in ([7], [11, 3], [5]):
+            rr = call(pa._spikes_in_clusters, sc, req)
+            exp = np.nonzero(np.isin(sc, req))[0]
+            if not rr.ok or same(rr.value, exp, dtype=False):
+                ctx.violation('selection_not_union' if rr.ok else 'raised', {'kind': 'very_long', 'n': n, 'dtype': dt, 'request': req},
+                              '_spikes_in_clusters on %d spikes: %s' % (n, rr.exc if not rr.ok else same(rr.value, exp, dtype=False)), {'dtype': dt, 'very_long': True}, tb=rr.tb)
+                return
+
+
 def run_case(case, ctx):
     if 'model' in case:
         return _model_case(case, ctx)
+    if case.get('kind') == 'very_long':
+        return _very_long(case, ctx)
     if case.get('empties'):
         from phylib.io import array as pa
         ctx.count(1, cell=('empties',))
@@ -245,6 +278,8 @@ def run_case(case, ctx):
         d = same(rr.value, exp, dtype=False)
         if d:
             ctx.violation('selection_not_union', dict(case, subset=sub), d, feats)
+    if case.get('huge_ids'):
+        return          # (the table-based helpers allocate as many entries as the largest id)
     # _unique, _index_of (unsorted lookup), flatten, grouped_mean: judged by M2; failures to run are
     # violations too
     if has_neg:
